@@ -5,8 +5,24 @@
 //! with the naive all-bindings evaluator of `vcheck::qmodel`.  Two front ends that both answer
 //! the same question must also agree with each other.
 //!
-//! Extra modes: `c08 --probe` (reads `lang| text` lines on stdin, runs them on a fixed graph),
-//! `c08 --list [depth]` (prints the query enumeration).
+//! Oracles, per (graph, query, language) whose text the engine accepts:
+//!  * engine rows == reference rows under `qmodel::compare` (kinds missing-rows / extra-rows /
+//!    wrong-value / wrong-order / wrong-window / wrong-arity);
+//!  * no panic (kind panic);
+//!  * an `Err` is "not expressible" unless the same text is answered on a rich reference graph, in
+//!    which case the failure depends on the data and is reported (kind spurious-error);
+//!  * two languages that both pass the reference check must also agree with each other
+//!    (kind language-disagreement; differences implied by a reference deviation are only counted).
+//! Every failing case is minimised (query clauses, then graph elements, to a fixpoint) before its
+//! signature is computed, so that a signature names the clause shape and the witness features that
+//! are needed for the failure; at most `CASES_PER_SIG` cases per signature are kept (the first in
+//! enumeration order, i.e. the simplest).
+//!
+//! Extra modes (triage aids): `c08 --probe` (reads `gql|cy|gr|gq| text` and `graph| <pretty graph>`
+//! lines on stdin), `c08 --list [depth]` (prints the query enumeration with its Gremlin / GraphQL
+//! spellings), `c08 --plan "<gql>" "<graph>"` (logical plan before / after the optimizer).
+//! Environment: `C08_MAX_GRAPHS=n` (truncate, marks the run non-exhaustive), `C08_DEPTH=d`,
+//! `C08_DIGEST=1` (one line per violation signature).
 
 use grafeo_engine::Session;
 use serde_json::{Value as J, json};
@@ -87,7 +103,7 @@ fn expressible(lang: Lang, text: &str) -> bool {
 }
 
 fn needs_alt(g: &QGraph, q: &Query) -> bool {
-    g.edges.iter().any(|e| e.src == e.dst) && q.paths.iter().any(|p| p.hops.iter().any(|h| h.dir == Dir::Both))
+    g.edges.iter().any(|e| e.src == e.dst) && q.paths.iter().chain(q.optional.iter()).any(|p| p.hops.iter().any(|h| h.dir == Dir::Both))
 }
 
 fn judge_text(g: &QGraph, ids: &IdMap, s: &Session, q: &Query, lang: Lang, text: &str) -> Judged {
@@ -230,7 +246,7 @@ impl Minimiser {
         {
             let mut m = MEMO.lock().unwrap();
             let m = m.get_or_insert_with(HashMap::new);
-            if m.len() > 2_000_000 {
+            if m.len() > 600_000 {
                 m.clear();
             }
             m.insert(key, v);
@@ -273,15 +289,14 @@ fn signature(langs: &str, kind: &str, g: &QGraph, q: &Query) -> Vec<(String, Str
     for (k, v) in q.features() {
         sig.push((k.to_string(), v));
     }
-    let mut gf: BTreeSet<&str> = g.features();
+    let gf: BTreeSet<&str> = g.features();
     // query-relative witness feature: a property the query reads is absent on some element
     let evars = q.edge_vars();
+    let mut missing = false;
     for (v, k) in q.props_read() {
-        let missing = if evars.contains(&v) { g.edges.iter().any(|e| !e.props.contains_key(&k)) } else { g.nodes.iter().any(|n| !n.props.contains_key(&k)) };
-        if missing {
-            gf.insert("missing-property");
-        }
+        missing |= if evars.contains(&v) { g.edges.iter().any(|e| !e.props.contains_key(&k)) } else { g.nodes.iter().any(|n| !n.props.contains_key(&k)) };
     }
+    sig.push(("missing_property".into(), if missing { "yes" } else { "no" }.into()));
     let gf: Vec<&str> = gf.into_iter().collect();
     sig.push(("graph".into(), if gf.is_empty() { "plain".into() } else { gf.join("+") }));
     sig
@@ -297,9 +312,12 @@ const CASES_PER_SIG: usize = 20;
 struct Shard {
     evaluations: u64,
     counts: BTreeMap<String, u64>,
-    nontrivial: BTreeSet<u64>,
-    /// signature string -> (occurrences, first cases)
-    viols: BTreeMap<String, (u64, Vec<vcore::Violation>)>,
+    /// bitmap over (query index * 4 + language index)
+    nontrivial: Vec<u64>,
+    /// signature string -> (occurrences, simplest cases as ((graph index, query index), violation))
+    viols: BTreeMap<String, (u64, Vec<((usize, usize), vcore::Violation)>)>,
+    /// position of the case being judged in the enumeration (graph index, query index)
+    at: (usize, usize),
     errs: BTreeMap<String, u64>,
     samples: Vec<J>,
 }
@@ -312,24 +330,35 @@ impl Shard {
         let v = vcore::Violation::new(&fields, case, detail);
         let e = self.viols.entry(v.sig_string()).or_insert((0, vec![]));
         e.0 += 1;
-        if e.1.len() < CASES_PER_SIG {
-            e.1.push(v);
+        // a shard (one graph) keeps its first case per signature; the merge keeps the
+        // CASES_PER_SIG cases that come first in (graph, query) enumeration order
+        if e.1.is_empty() {
+            e.1.push((self.at, v));
         }
+    }
+    fn mark_nontrivial(&mut self, bit: usize) {
+        if self.nontrivial.len() <= bit / 64 {
+            self.nontrivial.resize(bit / 64 + 1, 0);
+        }
+        self.nontrivial[bit / 64] |= 1 << (bit % 64);
     }
     fn merge(&mut self, o: Shard) {
         self.evaluations += o.evaluations;
         for (k, n) in o.counts {
             *self.counts.entry(k).or_insert(0) += n;
         }
-        self.nontrivial.extend(o.nontrivial);
+        if self.nontrivial.len() < o.nontrivial.len() {
+            self.nontrivial.resize(o.nontrivial.len(), 0);
+        }
+        for (i, w) in o.nontrivial.iter().enumerate() {
+            self.nontrivial[i] |= w;
+        }
         for (k, (n, cases)) in o.viols {
             let e = self.viols.entry(k).or_insert((0, vec![]));
             e.0 += n;
-            for c in cases {
-                if e.1.len() < CASES_PER_SIG {
-                    e.1.push(c);
-                }
-            }
+            e.1.extend(cases);
+            e.1.sort_by_key(|c| c.0);
+            e.1.truncate(CASES_PER_SIG);
         }
         for (k, n) in o.errs {
             *self.errs.entry(k).or_insert(0) += n;
@@ -372,6 +401,7 @@ fn run_graph(gi: usize, g: &QGraph, plan: &Plan, nqueries: usize) -> Shard {
     let s = db.session();
     let mut mini = Minimiser { execs: 0 };
     for (qi, q) in plan.queries.iter().enumerate().take(nqueries) {
+        sh.at = (gi, qi);
         let mut judged: Vec<(Lang, Judged)> = vec![];
         for (li, lang) in Lang::ALL.into_iter().enumerate() {
             let Some(text) = &plan.texts[qi][li] else { continue };
@@ -391,7 +421,7 @@ fn run_graph(gi: usize, g: &QGraph, plan: &Plan, nqueries: usize) -> Shard {
                     }
                     if *nonempty {
                         sh.add("nontrivial_evaluations", 1);
-                        sh.nontrivial.insert(vcore::hash_of(&(qi, li)));
+                        sh.mark_nontrivial(qi * 4 + li);
                         if sh.samples.is_empty() && gi % 97 == 5 && qi % 89 == 7 {
                             sh.samples.push(json!({"graph": g.pretty(), "lang": lang.name(), "query": text, "rows": format!("{rows:?}")}));
                         }
@@ -444,7 +474,7 @@ fn run_graph(gi: usize, g: &QGraph, plan: &Plan, nqueries: usize) -> Shard {
             }
         }
     }
-    sh.add("minimisation_executions", mini.execs);
+    let _ = mini.execs; // (depends on memo races between workers: not reported)
     sh
 }
 
@@ -464,15 +494,19 @@ fn layers(tier: vcore::Tier) -> Vec<(GraphSpace, u32)> {
     let mut kinds5 = kinds4.clone();
     kinds5.push(nk(&["A", "B"], Some(2), None));
     let e3 = vec![ek("K", None), ek("L", None), ek("K", Some(1))];
+    let kinds3 = vec![nk(&["A"], Some(1), None), nk(&["A"], Some(2), Some("x")), nk(&["B"], Some(1), None)];
+    let kinds2 = vec![nk(&["A"], Some(1), None), nk(&["B"], Some(2), None)];
+    let e2w = vec![ek("K", None), ek("K", Some(1))];
     match tier {
         vcore::Tier::Quick => vec![
             (GraphSpace { max_nodes: 2, max_edges: 2, node_kinds: kinds5, edge_kinds: e3 }, 2),
-            (GraphSpace { max_nodes: 2, max_edges: 1, node_kinds: kinds4, edge_kinds: vec![ek("K", None), ek("K", Some(1))] }, 3),
+            (GraphSpace { max_nodes: 2, max_edges: 2, node_kinds: kinds3, edge_kinds: e2w }, 3),
         ],
         vcore::Tier::Thorough => vec![
             (GraphSpace { max_nodes: 2, max_edges: 2, node_kinds: GraphSpace::core_node_kinds(), edge_kinds: e3 }, 3),
             (GraphSpace { max_nodes: 3, max_edges: 3, node_kinds: kinds4, edge_kinds: GraphSpace::plain_edge_kinds() }, 2),
             (GraphSpace { max_nodes: 2, max_edges: 1, node_kinds: GraphSpace::full_node_kinds(), edge_kinds: GraphSpace::full_edge_kinds() }, 2),
+            (GraphSpace { max_nodes: 3, max_edges: 2, node_kinds: kinds2, edge_kinds: GraphSpace::plain_edge_kinds() }, 3),
         ],
     }
 }
@@ -639,18 +673,21 @@ fn run(args: vcore::Args) -> i32 {
     // heaviest graphs first so that the parallel map ends evenly (results stay in input order)
     let mut order: Vec<usize> = (0..graphs.len()).collect();
     order.sort_by_key(|&i| std::cmp::Reverse((gdepth[i], graphs[i].nodes.len() + graphs[i].edges.len())));
-    let mut shards_by_graph: Vec<Option<Shard>> = (0..graphs.len()).map(|_| None).collect();
-    for (k, sh) in vcore::par_map(&order, vcore::cores(), |_, &gi| run_graph(gi, &graphs[gi], &plan, prefix[gdepth[gi] as usize])).into_iter().enumerate() {
-        shards_by_graph[order[k]] = Some(sh);
-    }
-    let shards: Vec<Shard> = shards_by_graph.into_iter().map(|s| s.unwrap()).collect();
+    // processed in bounded batches so that memory does not grow with the number of graphs; the merge
+    // is order-independent (counters add up, kept cases are the first in enumeration order)
     let mut all = Shard::default();
-    for s in shards {
-        all.merge(s);
+    for batch in order.chunks(2048) {
+        for sh in vcore::par_map(batch, vcore::cores(), |_, &gi| run_graph(gi, &graphs[gi], &plan, prefix[gdepth[gi] as usize])) {
+            all.merge(sh);
+        }
     }
     rep.evaluations = all.evaluations;
-    for h in &all.nontrivial {
-        rep.nontrivial_hash(*h);
+    for (i, w) in all.nontrivial.iter().enumerate() {
+        for b in 0..64 {
+            if w & (1 << b) != 0 {
+                rep.nontrivial_hash(vcore::hash_of(&(i * 64 + b)));
+            }
+        }
     }
     rep.sample(json!({"graph_first": graphs.first().map(|g| g.pretty()), "graph_last": graphs.last().map(|g| g.pretty()), "query_first": plan.queries.first().map(render_gql_like), "query_last": plan.queries.last().map(render_gql_like)}));
     for s in all.samples {
@@ -673,11 +710,11 @@ fn run(args: vcore::Args) -> i32 {
     if std::env::var("C08_DIGEST").is_ok() {
         for (k, (n, cases)) in &all.viols {
             let short: Vec<&str> = k.split(',').filter(|f| !(f.ends_with("=no") || f.ends_with("=none"))).collect();
-            println!("DIGEST n={n} [{}] :: {}", short.join(","), vcore::truncate(&cases[0].detail, 330));
+            println!("DIGEST n={n} [{}] :: {}", short.join(","), vcore::truncate(&cases[0].1.detail, 330));
         }
     }
     for (_, (_, cases)) in all.viols {
-        for c in cases {
+        for (_, c) in cases {
             rep.violation(c);
         }
     }
